@@ -659,6 +659,26 @@ def _main_batch(mod, a, root):
                         'shrink_budget_s', 90))
                 path = write_replay(mod, case, v)
                 keys, out = replay_in_fresh_process(mod, path)
+        tries = 0
+        while (keys is None or v['key'] not in keys) and tries < 4:
+            # a violation that depends on something the simulator does not
+            # own inside the code under test (object addresses reused by a
+            # cache keyed on id(), say) may need more than one attempt; the
+            # unshrunk case with its process history is the most faithful
+            tries += 1
+            cand = dict(orig_cases[key])
+            if tries >= 2 and 'prelude' not in cand:
+                cs = chunk_size(params)
+                start = (i // cs) * cs
+                cand['prelude'] = [
+                    mod.gen_case(Seeds(run_seed(root, mod.ID, tier, j)),
+                                 params, j) for j in range(start, i)]
+            path = write_replay(mod, cand, v)
+            keys, out = replay_in_fresh_process(mod, path)
+            if keys is not None and v['key'] in keys:
+                print('note: violation %s reproduces from the unshrunk case '
+                      '(attempt %d); it is not fully determined by the '
+                      'simulated inputs' % (v['key'], tries))
         if keys is None or v['key'] not in keys:
             print('HARNESS-ERROR: violation %s of run %d did not reproduce '
                   'in a fresh interpreter (replay %s)\n%s'
